@@ -116,6 +116,187 @@ static std::string firstDiff(const std::string& a, const std::string& b) {
   }
 }
 
+// ---------------------------------------------------------------- document level (Model/JsonDoc.lean)
+// The abstract content of the real object (read through its accessors, field by field) is sent in a
+// line-safe wire form next to a canonical rendering of the REAL document tree; the driver renders
+// `toJson content` the same way (op docsave). Op docload sends a (possibly mutated) document tree;
+// the real loader's result (observable fields) is compared with the model's `fromJson`.
+//   tree rendering: n | t | f | i<decimal> | d<float> | s<hex> | [v,v] | {<hexkey>:v,...}
+//   header:  <hex title>,<hex alias>,<hex comment>
+//   items:   # (none) | records joined by ';', fields joined by ',':
+//            uid,kind code,alias,convention,term raw,term resolved,forms,formal,def raw,def resolved,
+//            status,value class,typification,syntax tree,args,track       (strings in hex)
+//            forms/args: # | <hex>:<hex> joined by '+';  track: - | four bits
+//   data:    # | entries joined by ';', fields joined by '|': uid|calculated|type|value|texts|statement
+//            type/value in the C16 syntax ('-' = none), texts: - (null) | # (empty) | key:<hex> joined by '+'
+static std::string render(const JSON& j) {
+  if (j.is_null()) return "n";
+  if (j.is_boolean()) return j.get<bool>() ? "t" : "f";
+  if (j.is_number_integer()) return "i" + std::to_string(j.get<int64_t>());
+  if (j.is_number()) return "d" + j.dump();
+  if (j.is_string()) return "s" + vh::hex(j.get<std::string>());
+  std::string out;
+  if (j.is_array()) {
+    out = "[";
+    bool first = true;
+    for (const auto& el : j) { if (!first) out += ","; first = false; out += render(el); }
+    return out + "]";
+  }
+  out = "{";
+  bool first = true;
+  for (auto it = j.begin(); it != j.end(); ++it) { if (!first) out += ","; first = false; out += vh::hex(it.key()) + ":" + render(it.value()); }
+  return out + "}";
+}
+static std::string tyWire(const rslang::Typification& t) {
+  if (t.IsElement()) return t.E().baseID;
+  if (t.IsCollection()) return "B(" + tyWire(t.B().Base()) + ")";
+  std::string s = "T(";
+  for (rslang::Index i = 0; i < t.T().Arity(); ++i) { if (i) s += ","; s += tyWire(t.T().Component(static_cast<rslang::Index>(rslang::Typification::PR_START + i))); }
+  return s + ")";
+}
+static std::string valWire(const object::StructuredData& v) {
+  if (v.IsElement()) return std::to_string(v.E().Value());
+  if (v.IsTuple()) {
+    std::string s = "(";
+    for (rslang::Index i = 0; i < v.T().Arity(); ++i) { if (i) s += ","; s += valWire(v.T().Component(static_cast<rslang::Index>(rslang::Typification::PR_START + i))); }
+    return s + ")";
+  }
+  std::string s = "{"; bool first = true;
+  for (const auto& el : v.B()) { if (!first) s += ","; first = false; s += valWire(el); }
+  return s + "}";
+}
+template<class T> static std::string hdrWire(const T& f) { return vh::hex(f.title) + "," + vh::hex(f.alias) + "," + vh::hex(f.comment); }
+static std::string itemsWire(const RSCore& core, const rsModificationFacet* mods, bool obsOnly) {
+  std::string out;
+  for (const auto uid : core.List()) {
+    const auto& rs = core.GetRS(uid); const auto& tx = core.GetText(uid); const auto& info = core.GetParse(uid);
+    if (!out.empty()) out += ";";
+    out += std::to_string(uid) + "," + std::to_string(static_cast<int>(rs.type)) + "," + vh::hex(rs.alias) + "," + vh::hex(rs.convention) + "," +
+      vh::hex(tx.term.Text().Raw()) + "," + (obsOnly ? std::string("-") : vh::hex(tx.term.Text().Str())) + ",";
+    std::map<std::string, std::string> forms;
+    for (const auto& [m, text] : tx.term.GetAllManual()) forms[m.ToString()] = text;
+    if (forms.empty()) out += "#";
+    else { bool first = true; for (const auto& [tags, text] : forms) { if (!first) out += "+"; first = false; out += vh::hex(tags) + ":" + vh::hex(text); } }
+    out += "," + vh::hex(rs.definition) + "," + vh::hex(tx.definition.Raw()) + "," + (obsOnly ? std::string("-") : vh::hex(tx.definition.Str())) + ",";
+    if (obsOnly) out += "0,0,-,-,#";
+    else {
+      out += std::to_string(static_cast<int>(info.status)) + "," + std::to_string(static_cast<int>(info.valueClass)) + ",";
+      out += (info.Typification() != nullptr ? vh::hex(info.Typification()->ToString()) : std::string("-")) + ",";
+      const auto* tree = core.RSLang().ASTContext()(rs.alias);
+      out += (tree != nullptr ? vh::hex(rslang::AST2String::Apply(*tree)) : std::string("-")) + ",";
+      if (!info.arguments.has_value() || info.arguments->empty()) out += "#";
+      else { bool first = true; for (const auto& a : info.arguments.value()) { if (!first) out += "+"; first = false; out += vh::hex(a.name) + ":" + vh::hex(a.type.ToString()); } }
+    }
+    out += ",";
+    const TrackingFlags* fl = mods != nullptr ? (*mods)(uid) : nullptr;
+    if (fl == nullptr) out += "-";
+    else out += std::string(fl->allowEdit ? "1" : "0") + (fl->term ? "1" : "0") + (fl->definition ? "1" : "0") + (fl->convention ? "1" : "0");
+  }
+  return out.empty() ? "#" : out;
+}
+static std::string dataWire(const RSModel& m) {
+  std::string out;
+  for (const auto uid : m.Core()) {
+    if (!out.empty()) out += ";";
+    out += std::to_string(uid) + "|" + (m.Calculations().WasCalculated(uid) ? "1" : "0") + "|";
+    const auto* typif = m.GetParse(uid).Typification();
+    out += (typif != nullptr ? tyWire(*typif) : std::string("-")) + "|";
+    if (const auto d = m.Values().SDataFor(uid); d.has_value()) out += valWire(d.value()); else out += "-";
+    out += "|";
+    if (const auto* t = m.Values().TextFor(uid); t == nullptr) out += "-";
+    else if (t->size() == 0) out += "#";
+    else { bool first = true; for (const auto& [k, v] : *t) { if (!first) out += "+"; first = false; out += std::to_string(k) + ":" + vh::hex(v); } }
+    out += "|";
+    if (const auto s = m.Values().StatementFor(uid); s.has_value()) out += (s.value() ? "1" : "0"); else out += "-";
+  }
+  return out.empty() ? "#" : out;
+}
+// what the loader recomputed and the data part depends on: uid|verified|typification
+static std::string analysisWire(const RSModel& m) {
+  std::string out;
+  for (const auto uid : m.Core()) {
+    if (!out.empty()) out += ";";
+    const auto& info = m.GetParse(uid);
+    out += std::to_string(uid) + "|" + (info.status == ParsingStatus::VERIFIED ? "1" : "0") + "|" + (info.Typification() != nullptr ? tyWire(*info.Typification()) : std::string("-"));
+  }
+  return out.empty() ? "#" : out;
+}
+static void shuffleArray(vh::Rng& rng, JSON& arr) {
+  if (!arr.is_array() || arr.size() < 2) return;
+  std::vector<JSON> v(arr.begin(), arr.end());
+  for (size_t i = v.size() - 1; i > 0; --i) std::swap(v[i], v[rng.below(static_cast<uint32_t>(i + 1))]);
+  arr = JSON::array();
+  for (auto& x : v) arr += std::move(x);
+}
+// documents the writer does not produce: optional keys missing, items out of kind order, word forms
+// with unnormalised / unknown / repeated tags, tracking of an unknown uid, a required key missing
+static JSON mutateItems(vh::Rng& rng, JSON doc) {
+  if (rng.chance(1, 3)) { static const char* keys[] = { "title", "alias", "comment", "tracking" }; doc.erase(keys[rng.range(0, 3)]); }
+  if (doc.contains("items") && rng.chance(1, 2)) shuffleArray(rng, doc["items"]);
+  if (doc.contains("items")) for (auto& item : doc["items"]) {
+    if (rng.chance(1, 6)) item.erase("convention");
+    if (rng.chance(1, 8)) item.erase("term");
+    if (rng.chance(1, 8)) item.erase("definition");
+    if (rng.chance(1, 8)) item.erase("parse");
+    if (item.contains("term")) {
+      if (rng.chance(1, 6)) item["term"].erase("resolved");
+      if (rng.chance(1, 8)) item["term"].erase("forms");
+      if (item["term"].contains("forms") && rng.chance(1, 4)) {
+        static const std::vector<std::string> tagPool = { "datv,sing", " sing , datv ", "sing,datv", "plur,gent,plur", "xxxx,nomn", "", "nomn", "NOUN,femn,sing" };
+        const int n = rng.range(1, 3);
+        for (int q = 0; q < n; ++q) item["term"]["forms"] += JSON{ {"text", "f" + std::to_string(rng.range(0, 9))}, {"tags", rng.pick(tagPool)} };
+      }
+    }
+    if (item.contains("definition")) {
+      if (rng.chance(1, 8)) item["definition"].erase("formal");
+      if (rng.chance(1, 8)) item["definition"].erase("text");
+      if (item["definition"].contains("text") && rng.chance(1, 8)) item["definition"]["text"].erase("resolved");
+    }
+    if (rng.chance(1, 60)) { static const char* req[] = { "alias", "entityUID", "cstType" }; item.erase(req[rng.range(0, 2)]); }
+    if (item.contains("term") && rng.chance(1, 60)) item["term"].erase("raw");
+  }
+  if (doc.contains("tracking") && rng.chance(1, 4)) doc["tracking"] += JSON{ {"entityUID", 424242}, {"flags", TrackingFlags{ true, false, true, false }} };
+  if (doc.contains("tracking") && rng.chance(1, 4)) shuffleArray(rng, doc["tracking"]);
+  return doc;
+}
+static void docLoadForm(const JSON& doc) {
+  std::string impl;
+  try { RSForm g; doc.get_to(g); impl = hdrWire(g) + " " + itemsWire(g.Core(), &g.Mods(), true); }
+  catch (const std::exception&) { impl = "none"; }
+  emit("c10 docload form " + render(doc), impl);
+}
+static JSON mutateData(vh::Rng& rng, JSON doc) {
+  if (!doc.contains("data")) return doc;
+  auto& data = doc["data"];
+  if (rng.chance(1, 2)) shuffleArray(rng, data);
+  JSON kept = JSON::array();
+  for (auto& e : data) {
+    if (rng.chance(1, 8)) continue;                       // entry missing
+    if (rng.chance(1, 6)) e.erase("value");
+    if (rng.chance(1, 6)) e.erase("texts");
+    if (rng.chance(1, 8)) e["wasCalculated"] = !e["wasCalculated"].get<bool>();
+    if (e.contains("value") && e["value"].is_array() && !e["value"].empty() && rng.chance(1, 6)) {   // damaged table
+      auto& tbl = e["value"];
+      if (rng.chance(1, 2)) tbl += JSON::array({ 1, 1 }); else if (!tbl[0].empty()) tbl[0][0] = tbl[0][0].get<int>() + 1;
+    }
+    kept += e;
+    if (rng.chance(1, 10)) { JSON again = e; again["wasCalculated"] = false; again.erase("texts"); kept += again; }   // repeated entry
+  }
+  data = std::move(kept);
+  if (rng.chance(1, 40)) { if (!data.empty()) data[0].erase("wasCalculated"); }
+  if (rng.chance(1, 40)) data += JSON{ {"entityUID", 424242}, {"wasCalculated", false} };     // unknown uid: Schema::At throws
+  return doc;
+}
+static void docLoadModel(const JSON& doc) {
+  std::string impl, analysis = "#";
+  try {
+    RSModel g; doc.get_to(g);
+    analysis = analysisWire(g);
+    impl = hdrWire(g) + " " + itemsWire(g.Core(), nullptr, true) + " " + dataWire(g);
+  } catch (const std::exception&) { impl = "none"; }
+  emit("c10 docload model " + analysis + " " + render(doc), impl);
+}
+
 static const std::string IN = "\xE2\x88\x88", XI = "\xCE\xBE", TIMES = "\xC3\x97";
 static const std::vector<std::string>& defsPool() {
   static const std::vector<std::string> defs = {
@@ -155,6 +336,9 @@ static void formCase(vh::Rng& rng) {
   }
   const JSON j1 = f;
   const auto text1 = j1.dump(4);
+  emit("c10 docsave form " + hdrWire(f) + " " + itemsWire(f.Core(), &f.Mods(), false), render(j1));
+  docLoadForm(j1);
+  docLoadForm(mutateItems(rng, j1));
   RSForm g;
   JSON::parse(text1).get_to(g);
   emit("c10 formrt", [&] { const auto d = firstDiff(formContent(f), formContent(g)); return d.empty() ? std::string("1") : "0:" + d; }());
@@ -206,6 +390,9 @@ static void modelCase(vh::Rng& rng, bool gapKeys) {
   if (rng.chance(2, 3)) m.Calculations().RecalculateAll(); else for (const auto t : terms) if (rng.chance(1, 2)) m.Calculations().Calculate(t);
   const JSON j1 = m;
   const auto text1 = j1.dump(4);
+  emit("c10 docsave model " + hdrWire(m) + " " + itemsWire(m.Core(), nullptr, false) + " " + dataWire(m), render(j1));
+  docLoadModel(j1);
+  if (!gapKeys) { docLoadModel(mutateData(rng, j1)); docLoadModel(mutateData(rng, mutateItems(rng, j1))); }
   RSModel g;
   JSON::parse(text1).get_to(g);
   const std::string tag = gapKeys ? "gap" : "contig";
